@@ -178,3 +178,23 @@ MANIFEST_TEXT["C09"] = {
     "text": "TimeVerdict(exp, nbf, [t0,t1]) in {reject, accept, free} with the 120 s guard band; TLC checks Inv_C09 on MC_time (all offset pairs x clock positions x KB). Behaviours are replayed "
             "with real instants relative to the wall clock and validated by TLC: verdict reject obliges the implementation to reject (verify.lenient.time), accept obliges it to accept (verify.accept).",
     "note": _NOTE, "technique": "TLA+ bounded model checking (TLC) + scenario replay + trace validation"}
+
+PLANS["C11"] = P(
+    "model_checking",
+    ["hist.expect", "issue.history", "issue.exact", "issue.refs", "issue.accept", "issue.refuse.path", "issue.refuse.reserved", "issue.refuse.nonobject",
+     "issue.shape", "present.ok", "present.exact", "present.jwt", "present.shape", "present.kb", "present.kb.none", "verify.accept", "verify.view"],
+    [{"module": "MC_hist", "quick": "MC_hist_quick.cfg", "thorough": "MC_hist.cfg", "timeout": {"quick": 120, "thorough": 600}}],
+    [{"driver": "history", "scn": "MC_hist", "args": {"n": 500, "random": 40}}],
+    [{"driver": "history", "scn": "MC_hist", "args": {"n": 100000, "random": 2000}}],
+    required={"hist.expect": 1000, "issue.history": 100, "present.ok": 300, "verify.view": 300},
+    rule="cases = call histories on one issuer instance and on one holder instance (both serializations): every sequence of <= 3 (quick: seeded sample; thorough: <= 4, all 9360) "
+         "calls over two alphabets of eight calls incl. failing ones (MC_hist) + random histories of 5..8 calls; each call is judged by the stateless relations of the "
+         "specification, each output is decoded and verified, and nothing an instance emitted earlier may reappear; distinct = distinct (instance kind, format, call sequence)",
+    nontrivial_event="Verify",
+    assumptions=_A,
+)
+MANIFEST_TEXT["C11"] = {
+    "text": "In the specification Issue and Present are functions of the call's arguments (no per-instance state); MC_hist enumerates exhaustively all call histories up to the bound "
+            "with the prescribed outcome class per call. Each history is replayed on ONE real instance; TLC validates every event with the ordinary fresh-instance relations (issue.exact, "
+            "present.exact, verify.view ...), the model's outcome class (hist.expect) and disjointness from everything the instance emitted before (issue.history).",
+    "note": _NOTE, "technique": "TLA+ exhaustive history enumeration (TLC) + replay on one instance + trace validation"}
